@@ -125,7 +125,15 @@ pub fn spell(v: &Value, seed: u64) -> String {
 fn damage(text: &str, how: u8, at: u16) -> String {
     let chars: Vec<char> = text.chars().collect();
     let k = gen::pick(at, chars.len() + 1);
-    match how % 16 {
+    match how % 24 {
+        16 => format!("\u{000B}{}", text),            // vertical tab: white space for many trimmers, not for JSON
+        17 => format!("{}\u{000C}", text),            // form feed
+        18 => format!("\u{00A0}{}\u{0085}", text),
+        19 => format!("{}\u{2028}", text),
+        20 => format!("\u{3000}{}", text),
+        21 => format!("{}\n{}", text, text),          // two documents on two lines
+        22 => format!("garbage\n{}", text),           // only the last line is valid JSON
+        23 => format!("{}\n\n{}\n", "\"log line\"", text),
         0 => chars[..k.min(chars.len().saturating_sub(1))].iter().collect(), // truncation
         1 => format!("{}x", text),
         2 => format!("{} }}", text),
@@ -200,7 +208,7 @@ fn library(rule_text: &str, data_text: &str, obs: &mut Obs) -> Result<Expect, St
 fn compare(out: &cli::CliOut, want: &Expect, what: &str, rule_text: &str, data_text: &str) -> Result<(), String> {
     let ctx = || format!("rule text {:?}, data text {:?} ({})", rule_text, data_text, what);
     if out.timed_out {
-        return Err(format!("the command did not finish within 30 s: {}", ctx()));
+        return Err(format!("the command did not finish within 180 s (after a first attempt exceeded 30 s): {}", ctx()));
     }
     let stdout = String::from_utf8_lossy(&out.stdout).to_string();
     let stderr = String::from_utf8_lossy(&out.stderr).to_string();
@@ -313,8 +321,22 @@ fn check_chain(case: &Value, obs: &mut Obs) -> Result<(), String> {
     obs.evals += 1;
     let want1 = library(rule1, data, obs)?;
     compare(&first, &want1, "first stage", rule1, data)?;
-    if !want1.ok || want1.has_log {
-        obs.class("first stage fails or logs: no chaining");
+    if !want1.ok {
+        obs.class("first stage fails: no chaining");
+        return Ok(());
+    }
+    if want1.has_log {
+        // log lines + result line are several JSON documents: as the data of a second stage that is malformed text
+        let piped = String::from_utf8_lossy(&first.stdout).to_string();
+        if serde_json::from_str::<Value>(&piped).is_err() {
+            for ch in [Channel::StdinNoArg(piped.clone()), Channel::StdinDash(piped.clone())] {
+                let second = cli::run(&bin, rule2, &ch)?;
+                obs.evals += 1;
+                let want2 = Expect { lines: vec![], value: None, ok: false, has_log: false };
+                compare(&second, &want2, "second stage fed with log lines + result of the first", rule2, &piped)?;
+            }
+            obs.nt("chained after a logging stage: malformed input must be refused");
+        }
         return Ok(());
     }
     let piped = String::from_utf8_lossy(&first.stdout).to_string();
@@ -349,6 +371,9 @@ fn check_chain(case: &Value, obs: &mut Obs) -> Result<(), String> {
 fn gen_chain() -> BoxedStrategy<Value> {
     let first = prop_oneof![
         3 => Just(json!({"var": ""})),
+        1 => Just(json!({"+": [{"log": {"var": "a"}}, 1]})),
+        1 => Just(json!({"log": [{"var": "xs"}]})),
+        1 => Just(json!({"cat": [{"log": "first"}, {"log": {"var": "s"}}]})),
         2 => select(vec!["a", "b", "xs", "s", "é"]).prop_map(|k| json!({"var": k})),
         1 => Just(json!({"merge": [{"var": "xs"}, ["x😀y", "é"]]})),
         1 => Just(json!({"cat": [{"var": "s"}, "𝄞", {"var": "é"}]})),
